@@ -6,9 +6,11 @@ package simstore
 
 import (
 	"context"
+	"encoding/json"
 	"errors"
 	"expvar"
 	"fmt"
+	"hash/fnv"
 	"regexp"
 	"sort"
 	"strings"
@@ -392,8 +394,20 @@ func (ds *DataStore) fail(op, key string, kind opKind, alt string, idx int, err 
 
 // View queries: one park point before the query is evaluated and one before its answer reaches the caller, so that
 // writes (and the feed events they cause) can land while the query is in flight and are then not in its answer.
+// queryKey names a view query for the scheduler: design document, view and a short digest of the parameters (several
+// goroutines created at one site, e.g. one changes feed per channel, are then told apart by what they ask for).
+func queryKey(ddoc, name string, params map[string]any) string {
+	b, err := json.Marshal(params) // map keys are marshalled in sorted order
+	if err != nil || len(params) == 0 {
+		return "query:" + ddoc + "/" + name
+	}
+	h := fnv.New32a()
+	_, _ = h.Write(b)
+	return fmt.Sprintf("query:%s/%s?%08x", ddoc, name, h.Sum32())
+}
+
 func (ds *DataStore) ViewQuery(ctx context.Context, ddoc, name string, params map[string]any) (sgbucket.QueryResultIterator, error) {
-	key := "query:" + ddoc + "/" + name
+	key := queryKey(ddoc, name, params)
 	alt, idx, err := ds.pre("ViewQuery", key, opRead)
 	if err != nil {
 		return nil, ds.fail("ViewQuery", key, opRead, alt, idx, err)
@@ -410,7 +424,7 @@ func (ds *DataStore) ViewQuery(ctx context.Context, ddoc, name string, params ma
 }
 
 func (ds *DataStore) View(ctx context.Context, ddoc, name string, params map[string]any) (sgbucket.ViewResult, error) {
-	key := "query:" + ddoc + "/" + name
+	key := queryKey(ddoc, name, params)
 	alt, idx, err := ds.pre("View", key, opRead)
 	if err != nil {
 		return sgbucket.ViewResult{}, ds.fail("View", key, opRead, alt, idx, err)
@@ -912,10 +926,16 @@ func (f *FeedPipe) close() { f.closed.Store(true) }
 // vbucket queue an event goes to must not depend on them, or the same schedule would meet different queues.
 var uuidRe = regexp.MustCompile(`[0-9a-f]{8}-[0-9a-f]{4}-[0-9a-f]{4}-[0-9a-f]{4}-[0-9a-f]{12}`)
 
+var randomTokenRe = regexp.MustCompile(`[0-9a-f]{32,}`)
+
 func (f *FeedPipe) vbOf(key []byte) int {
 	k := string(key)
 	if len(k) >= 36 {
 		k = uuidRe.ReplaceAllString(k, "UUID")
+	}
+	if strings.HasPrefix(k, "_sync:") && len(k) >= 26 {
+		// session ids and other random tokens in metadata keys (crypto/rand): one queue per kind of key
+		k = randomTokenRe.ReplaceAllString(k, "*")
 	}
 	return int(sgbucket.VBHash(k, uint16(f.node.NumVB)))
 }
